@@ -136,6 +136,11 @@ class EofPdu(AbstractFileDirectiveBase):
         eof_pdu = cls.__empty()
         eof_pdu.pdu_file_directive = FileDirectivePduBase.unpack(raw_packet=data)
         eof_pdu.pdu_file_directive.verify_length_and_checksum(data)
+        # Only the declared PDU without the CRC trailer contains directive parameters.
+        end_of_params = eof_pdu.pdu_file_directive.packet_len
+        if eof_pdu.pdu_file_directive.pdu_conf.crc_flag == CrcFlag.WITH_CRC:
+            end_of_params -= 2
+        data = data[:end_of_params]
         expected_min_len = eof_pdu.pdu_file_directive.header_len + 9
         if expected_min_len > len(data):
             raise BytesTooShortError(expected_min_len, len(data))
